@@ -1,0 +1,42 @@
+//go:build verif
+
+package blocklist
+
+import "sync/atomic"
+
+// Verification gate points of persist (build tag "verif" only). A
+// conformance harness installs a gate function to observe each step of the
+// snapshot -> temp file -> sync -> rename sequence from the goroutine that
+// performs it, and may block there to force a chosen interleaving or to copy
+// the directory as a simulated interruption. With no gate installed the call
+// is a no-op.
+const (
+	verifPersistEnter   = iota + 1 // snapshot taken, mu released, saveMu not yet requested
+	verifPersistSkipped            // under saveMu: version <= lastPersisted, nothing written
+	verifTempCreated               // under saveMu: temp file exists, empty
+	verifWroteHeader
+	verifWroteLine // after every entry line
+	verifSynced
+	verifClosed
+	verifRenamed // rename done and lastPersisted advanced, saveMu still held
+)
+
+// VerifGateFunc receives (point, snapshot version).
+type VerifGateFunc func(point int, version uint64)
+
+var verifGateFn atomic.Pointer[VerifGateFunc]
+
+// SetVerifGate installs (or, with nil, removes) the gate function.
+func SetVerifGate(f VerifGateFunc) {
+	if f == nil {
+		verifGateFn.Store(nil)
+		return
+	}
+	verifGateFn.Store(&f)
+}
+
+func verifGate(point int, version uint64) {
+	if f := verifGateFn.Load(); f != nil {
+		(*f)(point, version)
+	}
+}
